@@ -233,10 +233,21 @@ func scenarioVerdict(sc *wire.Scenario) verdict {
 
 // runScenarioDecode is the oracle of C03 / C06: decode a well-formed scenario and compare with the reference model.
 func runScenarioDecode(sc *wire.Scenario) (v verdict, sig string, err error) {
+	return runScenarioDecodeWith(sc, nil)
+}
+
+// runScenarioDecodeWith runs between (if any) after the announcement messages have been decoded and before the main
+// message is: something that happens in the collector between learning a template and using it.
+func runScenarioDecodeWith(sc *wire.Scenario, between func() error) (v verdict, sig string, err error) {
 	v = scenarioVerdict(sc)
 	cache, addr, e := prepareScenario(sc)
 	if e != nil {
 		return v, "announce", e
+	}
+	if between != nil {
+		if e := between(); e != nil {
+			return v, "between", e
+		}
 	}
 	wireBytes := sc.Main.Bytes()
 	if len(wireBytes) > 65507 {
